@@ -380,6 +380,8 @@ func genSetup(r *coqfmt.Rng, focus, mode string) setupT {
 		s.Delay = r.Chance(3, 4)
 		s.Suppress = r.Chance(1, 2)
 	}
+	// the global handlers are not always installed
+	s.NoNew, s.NoErr = r.Chance(1, 5), r.Chance(1, 5)
 	// a config type without a Verify method
 	s.NV = r.Chance(1, 8) || focus == "C09" && r.Chance(1, 5)
 	s.Def = [3]int{r.Intn(4), 3 + r.Intn(6), r.Intn(10)}
@@ -638,6 +640,31 @@ var scripts = map[string]script{
 			w.drainCb() // both handles hear about every further version
 		}
 	}},
+	// no global handlers at all: installs with nobody listening, then a registration with a stale token
+	// (catch-up due), rejected blocking reports answered with their error, a source error
+	"no-handlers": {setupT{NoNew: true, NoErr: true, Def: [3]int{1, 5, 0}, Watching: []bool{true}, Inits: []svJSON{{}}}, func(w *world) {
+		w.startOp(&opT{K: "token", Slot: 0})
+		w.report(0, svJSON{C: iptr(1)}, true)
+		w.drainMon()
+		w.report(0, svJSON{C: iptr(2)}, false)
+		w.drainMon()
+		w.drainCb()
+		r1 := w.startOp(&opT{K: "register", Slot: 0}) // stale: the catch-up call is due
+		w.finish(r1)
+		w.drainCb()
+		t := w.report(0, svJSON{A: iptr(9)}, true) // fails Verify
+		w.drainMon()
+		w.finish(t)
+		t = w.report(0, svJSON{Bad: true}, true) // fails to stack
+		w.drainMon()
+		w.finish(t)
+		e := w.startOp(&opT{K: "offer", Msg: &msgT{K: "err", Src: 0}})
+		w.do(label{K: "recv", Src: "offer", Tid: e})
+		w.drainMon()
+		w.report(0, svJSON{C: iptr(3)}, true)
+		w.drainMon()
+		w.drainCb()
+	}},
 	// C05/C07: the reporter's context ends while the monitor is inside Verify for its value: the value is
 	// installed all the same (the slot and the view stay in step), the reporter gets its context error
 	"cancel-during-verify": {setupT{Def: [3]int{1, 5, 0}, Watching: []bool{true, true}, Inits: []svJSON{{}, {}}}, func(w *world) {
@@ -802,7 +829,7 @@ func init() {
 
 var scriptOrder = []string{"late-register", "double-unregister", "srcerr-delay-nosuppress", "srcerr-after-enable-suppress",
 	"enable-nomon", "enable-nomon-invalid", "race-register-after-store", "race-catchup", "abandoned-caller",
-	"blocked-callback", "overflow", "overflow-then-register", "same-buffer", "cancel-during-verify", "rejections", "enable-retry", "blank-setsource"}
+	"blocked-callback", "overflow", "overflow-then-register", "same-buffer", "cancel-during-verify", "no-handlers", "rejections", "enable-retry", "blank-setsource"}
 
 func init() {
 	for _, n := range scriptOrder {
